@@ -137,7 +137,9 @@ class ResumeOracle:
             extra = got - owed
             if extra:
                 return ("omen_remainder_repeats_or_foreign", {"cycle": c, "extra": sorted(extra.elements())[:5]})
-            cut_in_remainder = ctx.fired and ctx.fired_in == "remainder"
+            # the quit may have been requested earlier (even before this process started working): what
+            # matters is that it took effect while the remainder was being generated
+            cut_in_remainder = ctx.fired and (ctx.fired_in == "remainder" or (not r.emitted and sum(got.values()) < sum(owed.values())))
             if cut_in_remainder:
                 owed = owed - got
                 self.partial = (key, owed, [s for s in order if s not in got] if max(got.values(), default=0) <= 1 else order)
@@ -177,7 +179,7 @@ class ResumeOracle:
             if is_m(e["pt"]):
                 gl = collections.Counter(e["lines"])
                 last = i == len(E) - 1
-                if last and ctx.fired and ctx.fired_in == "omen":
+                if last and ctx.fired and (ctx.fired_in == "omen" or sum(gl.values()) < sum(self.ulines[k].values())):
                     extra = gl - self.ulines[k]
                     if extra:
                         return ("omen_level_wrong_strings", {"cycle": c, "extra": sorted(extra.elements())[:5]})
@@ -285,6 +287,7 @@ def run_c08(tape, tier, res):
     histories = []
     if tier == "thorough":
         histories.extend([[("pop", k)] for k in range(1, n + 1)])
+        histories.extend([[("pop", k), ("start",)] for k in range(1, n + 1, 3)])
         nmulti = 8
     else:
         nmulti = 5
@@ -293,7 +296,12 @@ def run_c08(tape, tier, res):
         cuts = []
         remaining = n
         for _c in range(ncuts):
-            style = t.draw(4)
+            style = t.draw(5)
+            if style == 4:
+                # the quit request is already pending when the process starts working (also while a
+                # saved session is being restored): zero pre-terminals later it must stop and save
+                cuts.append(("start",))
+                continue
             if style == 0:
                 k = 1
             elif style == 1:
@@ -408,6 +416,8 @@ def run_c15(tape, tier, res):
                 out.append(("remainder", t.between(1, 8)))
             elif kind == 2:
                 out.append(("omen", t.between(1, 2), t.between(1, 10)))
+            elif t.chance(1, 2):
+                out.append(("start",))
             else:
                 out.append(("pop", 1))
         return out
